@@ -44,3 +44,108 @@ Fixpoint weave (gaps toks : list str) (rest : str) : str :=
 (* a gap consists of blanks and copies of ${_ULIMIT_CMD} only *)
 Definition gap_ok (g : str) : Prop :=
   exists pieces, Forall skipped_ok pieces /\ g = concat pieces.
+
+(* ---------- simple words: the fragment C11's printer produces ----------
+
+   A word is scanned from the left in one of three states (outside quotes, inside
+   "...", inside '...').  `rx` recognises a make expression at the start of its
+   argument and returns what follows it (e.g. ${NAME}); which expressions it may
+   recognise is a hypothesis of the theorem about split_tokens, not part of this
+   definition. *)
+Inductive wq : Set := WPlain | WDq | WSq.
+
+Definition is_wtext (c : N) : bool := is_text_byte c && negb (c =? 35).   (* no '#' outside quotes *)
+Definition is_dq_inner (c : N) : bool := is_text_byte c || is_dq_byte c.
+Definition is_sq_inner (c : N) : bool := is_text_byte c || is_sq_byte c || (c =? 96).
+
+(* what follows `$$` in a shell variable: a digit, one of ! # * - ? @, a name,
+   or {name} / {name<op>text} -- returns the text after the variable
+   (`$$$$`, the process id, is left out: in the middle of a text the tokenizer reads
+   it as two escaped dollars, at its start as a variable) *)
+Definition shvar_rest (w : str) : option str :=
+  match w with
+  | [] => None
+  | d :: t =>
+    if is_digit d then Some t
+    else if d =? 36 then None
+    else match op_byte 123 w with
+         | Some w1 =>
+           match re_shvarname w1 with
+           | Some w2 => op_byte 125 (match re_shmodifier w2 with Some r => r | None => w2 end)
+           | None => None
+           end
+         | None => re_shvarname w
+         end
+  end.
+
+Section Words.
+Variable rx : str -> option str.
+
+Inductive wordp : wq -> str -> Prop :=
+| WP_end : wordp WPlain []
+| WP_text c u : is_wtext c = true -> wordp WPlain u -> wordp WPlain (c :: u)
+| WP_dq u : wordp WDq u -> wordp WPlain (34 :: u)
+| WP_sq u : wordp WSq u -> wordp WPlain (39 :: u)
+| WD_close u : wordp WPlain u -> wordp WDq (34 :: u)
+| WD_byte c u : is_dq_inner c = true -> wordp WDq u -> wordp WDq (c :: u)
+| WS_close u : wordp WPlain u -> wordp WSq (39 :: u)
+| WS_byte c u : is_sq_inner c = true -> wordp WSq u -> wordp WSq (c :: u)
+| W_esc q d u : q <> WSq -> (d =? 36) = false -> (d <? 128) = true -> wordp q u -> wordp q (92 :: d :: u)
+| W_escdd q u : q <> WSq -> wordp q u -> wordp q (92 :: 36 :: 36 :: u)
+| W_shvar q w r : q <> WSq -> shvar_rest w = Some r -> wordp q r -> wordp q (36 :: 36 :: w)
+| W_mk q w r : q <> WSq -> rx (36 :: w) = Some r -> wordp q r -> wordp q (36 :: w).
+
+(* the same as a test *)
+Fixpoint word_scan (fuel : nat) (q : wq) (u : str) : bool :=
+  match fuel with
+  | O => false
+  | S f =>
+    match u with
+    | [] => match q with WPlain => true | _ => false end
+    | c :: t =>
+      match q with
+      | WSq => if c =? 39 then word_scan f WPlain t else is_sq_inner c && word_scan f WSq t
+      | _ =>
+        if c =? 34 then word_scan f (match q with WPlain => WDq | _ => WPlain end) t
+        else if (match q with WPlain => c =? 39 | _ => false end) then word_scan f WSq t
+        else if c =? 92 then
+          match t with
+          | d :: t1 =>
+            if d =? 36 then (match t1 with e :: t2 => (e =? 36) && word_scan f q t2 | [] => false end)
+            else (d <? 128) && word_scan f q t1
+          | [] => false
+          end
+        else if c =? 36 then
+          match t with
+          | d :: w =>
+            if d =? 36 then (match shvar_rest w with Some r => word_scan f q r | None => false end)
+            else (match rx u with Some r => word_scan f q r | None => false end)
+          | [] => false
+          end
+        else (match q with WPlain => is_wtext c | _ => is_dq_inner c end) && word_scan f q t
+      end
+    end
+  end.
+
+(* operator tokens: ; ;; & && | || ( )  and  [digits] < <& > >& >> <> >| << <<- *)
+Definition plain_operators : list str :=
+  [ [59]; [59; 59]; [38]; [38; 38]; [124]; [124; 124]; [40]; [41] ].
+Definition is_operator_word (w : str) : bool :=
+  existsb (str_eqb w) plain_operators ||
+  existsb (str_eqb (snd (span is_digit w))) redirect_ops.
+
+Definition simple_word (w : str) : Prop :=
+  w <> [] /\ (wordp WPlain w \/ is_operator_word w = true).
+
+Definition simple_word_b (w : str) : bool :=
+  nonempty w && (word_scan (S (S (length w))) WPlain w || is_operator_word w).
+
+(* words joined by single blanks *)
+Fixpoint unwords (ws : list str) : str :=
+  match ws with
+  | [] => []
+  | [w] => w
+  | w :: tl => w ++ 32 :: unwords tl
+  end.
+
+End Words.
